@@ -428,23 +428,187 @@ pub fn check(ctx: &Ctx) -> i32 {
     let cs = cases();
     let n = cs.len();
     let chunks: Vec<&[Case]> = cs.chunks(40).collect();
-    let tally = par_items(&chunks, ctx.seed, |idx, ch, t| {
+    let mut tally = par_items(&chunks, ctx.seed, |idx, ch, t| {
         for (k, c) in ch.iter().enumerate() {
             judge(c, (idx as u64, k as u64), t);
         }
     });
+    huge_part(ctx, &mut tally);
     finish(
         ctx,
         &tally,
         Meta {
             level: "exploration",
-            rule: format!("{n} boundary cases: video decode-time gaps g1 (x optional g2) over {{3000, 2^31-1, 2^31, 2^31+1, 2^32-2, 2^32-1, 2^32, 2^32+1}} ticks x composition offset of the second frame (and, separately, of the first / only frame) over {{0, +-(2^31-1), +-2^31, +-(2^31+1)}} from start {{0, 2^33}} (cumulative durations crossing 2^32 included); the same gap product for AAC and Opus audio; parameter sets of 65534..65537 bytes (SPS) x {{4, 65535, 65536}} (PPS) x VPS; dimensions {{65535, 65536, 65537, 131072, u32::MAX}} x {{480, 65535, 65536}} x 4 codecs with and without frames; audio rates {{65535, 65536, 88200, 96000, u32::MAX}} x channels {{1, 6, 255, 256, 65535}}; absolute timestamps near 2^40, 2^52, 2^53 ticks and 1e15/1e300/f64::MAX s; fragmented DTS gaps {{2^32-1, 2^32, 2^33}} x composition offsets around 2^31; init segments with dimensions and parameter sets around 2^16. Oracle: the crossing call returns Err, or every numeric field the reader decodes equals the exact integer recomputed from the submitted history (no 32-bit escape). Same enumeration in both tiers. Distinct by (results, output bytes)."),
+            rule: format!("{n} boundary cases: video decode-time gaps g1 (x optional g2) over {{3000, 2^31-1, 2^31, 2^31+1, 2^32-2, 2^32-1, 2^32, 2^32+1}} ticks x composition offset of the second frame (and, separately, of the first / only frame) over {{0, +-(2^31-1), +-2^31, +-(2^31+1)}} from start {{0, 2^33}} (cumulative durations crossing 2^32 included); the same gap product for AAC and Opus audio; parameter sets of 65534..65537 bytes (SPS) x {{4, 65535, 65536}} (PPS) x VPS; dimensions {{65535, 65536, 65537, 131072, u32::MAX}} x {{480, 65535, 65536}} x 4 codecs with and without frames; audio rates {{65535, 65536, 88200, 96000, u32::MAX}} x channels {{1, 6, 255, 256, 65535}}; absolute timestamps near 2^40, 2^52, 2^53 ticks and 1e15/1e300/f64::MAX s; fragmented DTS gaps {{2^32-1, 2^32, 2^33}} x composition offsets around 2^31; init segments with dimensions and parameter sets around 2^16. Oracle: the crossing call returns Err, or every numeric field the reader decodes equals the exact integer recomputed from the submitted history (no 32-bit escape). Thorough tier only: 18 files whose media data reaches 2^32 bytes (mdat box size 2^32 - e for e over {{-64, -1, 0, 1, 16, 64, 600, 1200, 5000}} x both layouts, the last sample 32 bytes so that its chunk offset crosses 2^32 while the box size still fits), each in a child process: refused, or exact under the reader (which understands largesize and co64). Distinct by (results, output bytes)."),
             bound: "three inputs (below / at / above) per narrowing site, pairwise with neighbouring sites".into(),
             exhaustive: true,
-            assumptions: vec!["descriptor lengths near 2^8 and box sizes near 2^32 are unreachable from inputs of feasible size and are not claimed".into(), "mvhd/tkhd durations may match any track and any rounding direction; only wrapped/clipped values are violations".into()],
+            assumptions: vec!["descriptor lengths near 2^8 are unreachable from inputs of feasible size and are not claimed; box sizes and chunk offsets near 2^32 are exercised in the thorough tier only (10 GiB per case)".into(), "mvhd/tkhd durations may match any track and any rounding direction; only wrapped/clipped values are violations".into()],
             extra: json!({"cases": n}),
         },
     )
+}
+
+// ---------------------------------------------------------------------------------------------
+// files whose media data reaches 2^32 bytes (thorough tier; one child process per case)
+// ---------------------------------------------------------------------------------------------
+
+/// Shared sink with its capacity reserved up front (a doubling Vec would peak at twice the size).
+struct BigSink(std::rc::Rc<std::cell::RefCell<Vec<u8>>>);
+impl std::io::Write for BigSink {
+    fn write(&mut self, b: &[u8]) -> std::io::Result<usize> {
+        self.0.borrow_mut().extend_from_slice(b);
+        Ok(b.len())
+    }
+    fn flush(&mut self) -> std::io::Result<()> {
+        Ok(())
+    }
+}
+
+/// Child process: five VP9 keyframes whose payloads sum to 2^32 - 8 - e bytes (so the mdat box
+/// is 2^32 - e bytes long), the last one 32 bytes. Prints one line: `ERR <message>` (a write or
+/// finish refused), `OK <bytes>` (file correct under the exact-value oracle), or `BAD <sig>: ...`.
+/// Exit: 0 = ERR or OK, 1 = BAD, 3 = panic.
+pub fn child_huge(e: i64, fast: bool) -> i32 {
+    use muxide::api::{MuxerBuilder, VideoCodec};
+    let big = (1usize << 30) + (1usize << 28);
+    let total: i64 = (1i64 << 32) - 8 - e;
+    let f4 = total - 3 * big as i64 - 32;
+    let lens = [big, big, big, f4 as usize, 32usize];
+    let mut buf = vec![0u8; big];
+    for (i, b) in buf.iter_mut().enumerate() {
+        *b = ((i as u64).wrapping_mul(0x9E37_79B9_7F4A_7C15) >> 56) as u8;
+    }
+    let hdr = frames::Vp9Hdr::default().header(true);
+    buf[..hdr.len()].copy_from_slice(&hdr);
+    let store = std::rc::Rc::new(std::cell::RefCell::new(Vec::with_capacity((1usize << 32) + (1 << 16))));
+    let st2 = store.clone();
+    let r = guarded(move || {
+        let mut m = match MuxerBuilder::new(BigSink(st2)).video(VideoCodec::Vp9, 1280, 720, 30.0).with_fast_start(fast).build() {
+            Ok(m) => m,
+            Err(e) => return Err(format!("build: {e}")),
+        };
+        for (i, &l) in lens.iter().enumerate() {
+            if let Err(e) = m.write_video(i as f64 / 30.0, &buf[..l], true) {
+                return Err(format!("write {i}: {e}"));
+            }
+        }
+        match m.finish_in_place_with_stats() {
+            Err(e) => Err(format!("finish: {e}")),
+            Ok(st) => Ok((st.bytes_written, buf)),
+        }
+    });
+    let (reported, buf) = match r {
+        Err(p) => {
+            println!("BAD panic: {p}");
+            return 3;
+        }
+        Ok(Err(e)) => {
+            println!("ERR {e}");
+            return 0;
+        }
+        Ok(Ok(x)) => x,
+    };
+    let d = store.borrow();
+    if reported != d.len() as u64 {
+        println!("BAD bytes-written: reported {reported}, sink holds {}", d.len());
+        return 1;
+    }
+    let m = parse_movie(&d, "prog");
+    if let Some(p) = m.probs.of(&[oracle::reader::Class::Tile, oracle::reader::Class::Mandatory, oracle::reader::Class::Count]).first() {
+        println!("BAD structure/{}: {}", p.sig, p.detail);
+        return 1;
+    }
+    let Some(s) = m.video().and_then(|t| t.samples().ok()) else {
+        println!("BAD video-track: missing or unexpandable");
+        return 1;
+    };
+    if s.len() != lens.len() {
+        println!("BAD sample-count: {} for {} frames", s.len(), lens.len());
+        return 1;
+    }
+    let Some(mdat) = &m.mdat else {
+        println!("BAD mdat: missing");
+        return 1;
+    };
+    let mut pos = mdat.0 as u64;
+    for (i, (loc, &l)) in s.iter().zip(lens.iter()).enumerate() {
+        if loc.size as usize != l {
+            println!("BAD sample-size: sample {i} stsz {} for {l} bytes", loc.size);
+            return 1;
+        }
+        if loc.offset != pos {
+            println!("BAD chunk-offset: sample {i} is stored at {pos}, the table says {}", loc.offset);
+            return 1;
+        }
+        let (a, b) = (loc.offset as usize, loc.offset as usize + l);
+        if b > d.len() || d[a..b] != buf[..l] {
+            println!("BAD sample-bytes: sample {i} at {a}..{b}");
+            return 1;
+        }
+        pos += l as u64;
+    }
+    if pos != mdat.1 as u64 {
+        println!("BAD mdat-coverage: samples end at {pos}, mdat at {}", mdat.1);
+        return 1;
+    }
+    println!("OK {}", d.len());
+    0
+}
+
+fn huge_part(ctx: &Ctx, t: &mut Tally) {
+    if !ctx.thorough {
+        return;
+    }
+    // needs ~10 GiB per child; skipped (and counted) when the machine cannot provide it
+    let avail_kib: u64 = std::fs::read_to_string("/proc/meminfo").ok().and_then(|m| m.lines().find(|l| l.starts_with("MemAvailable:")).and_then(|l| l.split_whitespace().nth(1).and_then(|v| v.parse().ok()))).unwrap_or(0);
+    if avail_kib < 24 * 1024 * 1024 {
+        t.count("huge_file_cases_skipped_for_lack_of_memory", 1);
+        return;
+    }
+    let exe = std::env::current_exe().expect("exe");
+    let mut cases = vec![];
+    for e in [-64i64, -1, 0, 1, 16, 64, 600, 1200, 5000] {
+        for fast in [false, true] {
+            cases.push((e, fast));
+        }
+    }
+    // two children at a time
+    for (pi, pair) in cases.chunks(2).enumerate() {
+        let kids: Vec<_> = pair.iter().map(|&(e, fast)| (e, fast, std::process::Command::new(&exe).arg("--c16-huge").arg(e.to_string()).arg(if fast { "1" } else { "0" }).stdout(std::process::Stdio::piped()).stderr(std::process::Stdio::null()).spawn())).collect();
+        for (k, (e, fast, c)) in kids.into_iter().enumerate() {
+            t.evaluations += 1;
+            let order = (900_000 + pi as u64, k as u64);
+            let case = || json!({"engine": "E2-c16-huge", "e": e, "fast_start": fast});
+            let out = match c.and_then(|c| c.wait_with_output()) {
+                Ok(o) => o,
+                Err(_) => {
+                    t.count("huge_file_children_not_spawned", 1);
+                    continue;
+                }
+            };
+            let line = String::from_utf8_lossy(&out.stdout).lines().last().unwrap_or("").to_string();
+            let fits = e >= 1;
+            match (out.status.code(), line.split_whitespace().next()) {
+                (Some(0), Some("ERR")) => {
+                    t.count(if fits { "huge_file_refused_although_mdat_size_fits (chunk offsets may not)" } else { "huge_file_refused" }, 1);
+                    t.outcome(oracle::report::h64(line.as_bytes()));
+                }
+                (Some(0), Some("OK")) => {
+                    t.count("huge_file_written_and_exact", 1);
+                    t.outcome(oracle::report::h64(line.as_bytes()) ^ e as u64);
+                    if !fits {
+                        // the reader understands largesize / co64, so this can only be a correct 64-bit file
+                        t.count("huge_file_written_with_64_bit_fields", 1);
+                    }
+                }
+                (Some(1), _) | (Some(3), _) => {
+                    let sig = line.split(':').next().unwrap_or("BAD").replace("BAD ", "").replace(' ', "-");
+                    t.violation(&format!("C16/huge/{sig}"), order, || format!("media data of 2^32 - 8 - ({e}) bytes, fast_start {fast}: {line}"), case);
+                }
+                _ => t.count("huge_file_children_crashed (machinery, e.g. out of memory)", 1),
+            }
+        }
+    }
 }
 
 pub fn replay(case: &Value) -> i32 {
@@ -454,6 +618,11 @@ pub fn replay(case: &Value) -> i32 {
         Some("E2-c16-paramsets") => Case::ParamSets { codec: serde_json::from_value(case["codec"].clone()).unwrap(), sps: case["sps"].as_u64().unwrap() as usize, pps: case["pps"].as_u64().unwrap() as usize, vps: case["vps"].as_u64().unwrap() as usize },
         Some("E2-c16-frag") => Case::Frag { name: case["name"].as_str().unwrap_or("?").into(), cfg: serde_json::from_value(case["cfg"].clone()).unwrap(), hist: serde_json::from_value(case["history"].clone()).unwrap() },
         Some("E2-c16-init") => Case::Init { cfg: serde_json::from_value(case["cfg"].clone()).unwrap() },
+        Some("E2-c16-huge") => {
+            let rc = child_huge(case["e"].as_i64().unwrap_or(0), case["fast_start"].as_bool().unwrap_or(false));
+            println!("{}", if rc == 0 { "replay: property C16 holds for this case" } else { "replay: VIOLATION (see the line above)" });
+            return rc.min(1);
+        }
         _ => return 2,
     };
     println!("case: {c:?}");
